@@ -165,33 +165,45 @@ def check(ctx):
 
 def r5_molecules(ctx):
     """image_molecules treats the sets returned by Topology.find_molecules as rigid units: the search must be over the undirected bond graph."""
+    from ..tensym import TenSym, Obj, Raised
+    from ..pysym import Unsupported as PUnsupported
     TOPF = "mdtraj/core/topology.py"
     fn = ctx.py.func(TOPF, "Topology.find_molecules")
-    loops = [n for n in walk_no_nested(fn) if isinstance(n, ast.For) and src(n.iter) in ("self.bonds", "self._bonds")]
-    if not loops:
-        raise AnalysisError("find_molecules: loop over the bonds not found")
-    lp = loops[0]
-    tgt = [dotted(e) for e in lp.target.elts] if isinstance(lp.target, ast.Tuple) else []
-    apps = set()
-    for n in ast.walk(lp):
-        if isinstance(n, ast.Call) and isinstance(n.func, ast.Attribute) and n.func.attr == "append" and isinstance(n.func.value, ast.Subscript):
-            apps.add((src(n.func.value.slice), src(n.args[0])))
-    ok = len(tgt) == 2 and apps == {("%s.index" % tgt[0], "%s.index" % tgt[1]), ("%s.index" % tgt[1], "%s.index" % tgt[0])}
-    ctx.decide(ok, "C11-R5", lp, TOPF, "Topology.find_molecules", "adjacency lists hold both directions of every bond", str(sorted(apps)),
-               "the adjacency built from the bonds is %s: with one direction only, an atom whose bonded partners all have higher (or lower) indices starts a molecule of its own, "
-               "and image_molecules moves the pieces of one molecule by different lattice vectors" % sorted(apps))
-    # every atom receives a molecule: the outer loop ranges over all atoms and starts a search from each untagged one
-    outer = [n for n in walk_no_nested(fn) if isinstance(n, ast.For) and isinstance(n.target, ast.Name) and isinstance(n.iter, ast.Call) and call_name(n.iter) == "range" and len(n.iter.args) == 1
-             and src(n.iter.args[0]) in ("num_atoms", "self.n_atoms", "self._numAtoms", "len(self._atoms)")]
-    # the untagged test is on the loop's own variable, whatever it is called: `<tags>[v] == -1`
-    ok = False
-    if outer:
-        v = outer[0].target.id
-        for n in outer[0].body:
-            if isinstance(n, ast.If) and isinstance(n.test, ast.Compare) and len(n.test.ops) == 1 and isinstance(n.test.ops[0], ast.Eq) and isinstance(n.test.left, ast.Subscript) \
-                    and src(n.test.left.slice) == v and const(n.test.comparators[0]) == -1:
-                ok = True
-    ctx.decide(ok, "C11-R5", outer[0] if outer else fn, TOPF, "Topology.find_molecules", "a search starts from every atom not yet tagged", "", "not every atom is assigned to a molecule")
+    # find_molecules evaluated (sa/tensym.py) on model topologies whose bonds are listed in awkward orders: the sets returned must be the
+    # connected components of the undirected bond graph, every atom in exactly one of them.
+    worlds = [("chain listed backwards, branch to a lower index, a lone atom", 7, [(0, 1), (2, 1), (4, 3), (6, 3)]),
+              ("a ring and a long chain entered from its middle", 8, [(3, 4), (4, 5), (5, 3), (1, 0), (2, 1), (7, 2), (6, 7)]),
+              ("a star whose centre has the highest index", 5, [(4, 0), (4, 1), (4, 2), (4, 3)]),
+              ("two atoms bonded once, the higher index first", 2, [(1, 0)])]
+    for what, n_atoms, bond_ids in worlds:
+        atoms = [Obj(tag="a%d" % i, index=i) for i in range(n_atoms)]
+        bonds = [(atoms[i], atoms[j]) for i, j in bond_ids]
+        top = Obj(_bonds=list(bonds), bonds=list(bonds), atoms=list(atoms), _atoms=list(atoms), n_atoms=n_atoms, _numAtoms=n_atoms, _residues=[Obj(n_atoms=n_atoms, _atoms=list(atoms))], n_bonds=len(bonds))
+        comp = list(range(n_atoms))
+        for i, j in bond_ids:       # union of the two components
+            ci, cj = comp[i], comp[j]
+            comp = [ci if c == cj else c for c in comp]
+        want = sorted(sorted(k for k in range(n_atoms) if comp[k] == c) for c in set(comp))
+        desc = "find_molecules on a model topology (%s): the connected components of the bond graph" % what
+        try:
+            r = TenSym().run_fn(fn, self=top)
+        except PUnsupported as e:
+            ctx.undecided("C11-R5", fn, TOPF, "Topology.find_molecules", desc, "not evaluable: %s" % e)
+            continue
+        got = None
+        if isinstance(r, list) and all(isinstance(m, list) and all(isinstance(a_, Obj) and hasattr(a_, "index") for a_ in m) for m in r):
+            got = sorted(sorted(a_.index for a_ in m) for m in r)
+        ctx.decide(got == want, "C11-R5", fn, TOPF, "Topology.find_molecules", desc, "%d molecules" % len(want),
+                   "returned %s, the components are %s: image_molecules / make_molecules_whole move the pieces of one molecule by different lattice vectors (or two molecules as one)" % (got, want))
+    try:
+        atoms = [Obj(tag="a%d" % i, index=i) for i in range(3)]
+        top = Obj(_bonds=[], bonds=[], atoms=list(atoms), _atoms=list(atoms), n_atoms=3, _numAtoms=3, _residues=[Obj(n_atoms=3, _atoms=list(atoms))], n_bonds=0)
+        TenSym().run_fn(fn, self=top)
+        ctx.violated("C11-R5", fn, TOPF, "Topology.find_molecules", "a topology without bonds but with multi-atom residues is refused", "every atom is silently reported as a molecule of its own")
+    except Raised as e:
+        ctx.holds("C11-R5", fn, TOPF, "Topology.find_molecules", "a topology without bonds but with multi-atom residues is refused", "raises %s" % e.exc[:40])
+    except PUnsupported as e:
+        ctx.undecided("C11-R5", fn, TOPF, "Topology.find_molecules", "a topology without bonds is refused", "not evaluable: %s" % e)
     # the callers use find_molecules() for the units they move
     im = ctx.py.func(TRAJ, "Trajectory.image_molecules")
     ok = "self._topology.find_molecules()" in src(im) or "self.topology.find_molecules()" in src(im)
